@@ -52,3 +52,85 @@ def replay(prop, path):
         print("REPLAY mismatch:", v)
     print("VIOLATION property=%s replay=%s" % (prop, path) if to.mismatches else "replay: event now conforms")
     return 1 if to.mismatches else 0
+
+
+def codec_key(ev, v):
+    return {"ev": ev.get("ev"), "tag": ev.get("tag"), "n": ev.get("n"), "L": ev.get("L"),
+            "code_res": ev.get("res"), "spec_branch": v[3], "input_sha3": runner_sha(ev.get("x") if ev.get("ev") == "decompress" else [c % 256 for c in ev.get("v", [])])}
+
+
+def _codec_common(c, want_mc_defects=True):
+    """Shared by C07 (losslessness/canonicity) and C03 (totality of the decoder): the same machinery, the two
+    properties read different parts of its verdicts."""
+    thorough = c.tier == "thorough"
+    mc = McOutcome()
+    runs = [dict(module="MC_Codec", cfg="MC_Codec", workers=16, xmx="8g"),
+            dict(module="MC_Codec", cfg="MC_Codec_L3" if thorough else "MC_Codec_L3q", workers=16, xmx="8g", timeout=5400)]
+    if want_mc_defects:
+        runs += [dict(module="MC_Codec", cfg="MC_Codec_D2", workers=8, expect="violation"),
+                 dict(module="MC_Codec", cfg="MC_Codec_D8", workers=8, expect="violation")]
+    model_check(mc, runs)
+    c.add_mc(mc)
+    # spec -> impl: TLC generates all cases for L = 2 (and L = 3 digests in thorough), replayed on the real code
+    gen = runner.fresh_dir(os.path.join(c.work, "gen"))
+    g = McOutcome()
+    model_check(g, [dict(module="Gen_Codec", cfg="Gen_Codec", workers=16, env={"GEN_DIR": gen}, xmx="8g")])
+    if thorough:
+        model_check(g, [dict(module="Gen_Codec", cfg="Gen_Codec_L3", workers=16, env={"GEN_DIR": gen}, xmx="8g", timeout=7200)])
+    c.cov["states"] += g.states
+    c.cov["transitions"] += g.transitions
+    c.cov["mc_runs"] += g.runs
+    drive("replay-codec", ["--in", gen, "--out", c.work])
+    res = json.load(open(os.path.join(c.work, "replay_result.json")))
+    c.cov["evaluations"] += res["cases"]
+    c.cov["gen_cases_replayed"] = res["cases"]
+    c.cov["gen_cases_accepted_by_spec"] = res["accepted"]
+    c.cov["exhaustive"] = True
+    for s in res["samples"][:2]:
+        c.cov["samples"].append({"tlc_generated_case": runner.shrink(s)})
+    for m in res["mismatches"]:
+        case = m["case"]
+        c.violation({"kind": "gen-" + case.get("kind", ""), "x": case.get("x"), "n": case.get("n"), "v": case.get("v"),
+                     "L": case.get("L"), "first": case.get("first")}, {"module": "Trace_Codec", "case": case, "code": m["code"]})
+    return thorough
+
+
+def c07(c):
+    thorough = _codec_common(c)
+    c.cov["rule"] = ("MC_Codec: all byte strings of length 2 (and 3) x n <= 3, all box vectors (canonicity, round trip, refinement of the "
+                     "implementation-shaped model); Gen_Codec: every such case replayed on the real compress/decompress; Trace_Codec: "
+                     "production-size families (runs at first/middle/last coefficient, cursor alignments at the buffer end, budget edges, "
+                     "minus zero, padding bits, random/bit-flipped strings) judged by TLC; distinct_nontrivial = distinct (tag, spec branch) classes")
+    drive("c07", ["--tier", c.tier, "--seed", c.seed, "--out", c.work, "--shards", 14, "--bulk", 2000000 if thorough else 30000])
+    to = validate_traces("Trace_Codec", traces_in(c.work, "codec"), parallel=PAR)
+    c.add_traces(to, keyfn=codec_key)
+    c.assumptions += ["TLC + CommunityModules", "transcription of Algorithms 17/18 (Codec.tla)", "hook wrappers verif::compress/decompress are thin"]
+
+
+def decode_key(ev, v):
+    return {"ev": ev.get("ev"), "type": ev.get("type"), "tag": ev.get("tag"), "n": ev.get("n"), "code_res": ev.get("res"),
+            "spec_branch": v[3], "input_sha3": runner_sha(ev.get("b"))}
+
+
+def _decoders(c, bulk):
+    drive("decoders", ["--tier", c.tier, "--seed", c.seed, "--out", c.work, "--shards", 14, "--bulk", bulk])
+    to = validate_traces("Trace_Decode", traces_in(c.work, "decode"), parallel=PAR)
+    c.add_traces(to, keyfn=decode_key, label="decode")
+
+
+def c03(c):
+    thorough = _codec_common(c)
+    c.cov["rule"] = ("totality: (1) MC_Codec: the implementation-shaped model of decompress never reaches a panic state on all strings of "
+                     "length <= 3 (and its pre-fix variants do); (2) every TLC-generated codec case replayed under catch_unwind; (3) decoder "
+                     "families (all 256 header bytes, length classes, field edges, random bodies) and the adversarial verify corpus recorded "
+                     "with outcome in {ok, err, true, false, panic} and judged by TLC -- the trace specs have no action that accepts a panic; "
+                     "(4) native bulk fuzz summarised. distinct_nontrivial = distinct (tag, spec branch) classes")
+    drive("c07", ["--tier", c.tier, "--seed", c.seed, "--out", c.work, "--shards", 14, "--bulk", 3000000 if thorough else 50000])
+    to = validate_traces("Trace_Codec", traces_in(c.work, "codec"), parallel=PAR)
+    c.add_traces(to, keyfn=codec_key, label="codec")
+    _decoders(c, 2000000 if thorough else 30000)
+    drive("c02", ["--tier", c.tier, "--seed", c.seed + 1, "--out", c.work, "--shards", 14])
+    to = validate_traces("Trace_Verify", traces_in(c.work, "verify"), parallel=PAR)
+    c.add_traces(to, keyfn=verify_key, label="verify")
+    c.assumptions += ["rustc overflow checks (harness profile: overflow-checks + debug-assertions on) define 'overflow'",
+                      "catch_unwind observes every panic", "memory safety beyond panics is Rust's (no unsafe in the crate)"]
